@@ -93,4 +93,7 @@ def work(clone):
                     print("    ", p, (c["replay"] or {}).get("broken"), ((c["replay"] or {}).get("what") or "")[:200], flush=True)
 ts = [threading.Thread(target=work, args=(c,)) for c in pool]
 [t.start() for t in ts]; [t.join() for t in ts]
-json.dump(res, open(os.path.join(root, "REFACTOR_RESULTS.json"), "w"), indent=1, sort_keys=True)
+out = os.path.join(root, "REFACTOR_RESULTS.json")
+if only and os.path.exists(out):   # a partial re-run updates the entries it ran and keeps the others
+    prev = json.load(open(out)); prev.update(res); res = prev
+json.dump(res, open(out, "w"), indent=1, sort_keys=True)
